@@ -1,5 +1,6 @@
 import Avfs.Lemmas.StepFacts
 import Avfs.Lemmas.Posix
+import Avfs.Lemmas.Posix2
 /-
   C01 — emulated namespace operations behave as on the real Linux file system.
   Subject: the MemFS model (Avfs.FS.step), tied to /repo by `corr memfs` and compared with the Linux kernel by
@@ -88,5 +89,84 @@ theorem C01_stat_posix (s : Store) (root : Ino) (v : View) (hwf : WF s root) (hn
     | .denied => (stat s v (SL :: joinWith SL cs) m).2 = .err .EACCES
     | .viaLink => True :=
   stat_posix s root v hwf hn hv hroot cs hne hall hdots m
+
+
+/-! ### more calls against the POSIX-style reference (Lemmas/Posix2.lean): open, link, truncate, chmod, chown, rename -/
+
+/-- OpenFile = open(2) for every flag value: the reference's error; or a new regular file under the last component's name in the resolved parent (caller's identity, perm &^ umask) and a handle on it; or a handle on the existing node (truncated first when O_TRUNC is given) — outside the corner `openExclDenied` (O_CREAT|O_EXCL on an existing file the caller may not open: MemFS answers EACCES where open(2) answers EEXIST, witness `open_excl_denied`) -/
+theorem C01_open_posix (s : Store) (root : Ino) (v : View) (hwf : WF s root) (hn : NamesOK s) (hv : ViewOK s v)
+    (hroot : v.root = root) (cs : List Bytes) (hne : cs ≠ []) (hall : ∀ c ∈ cs, c ≠ [] ∧ ∀ x ∈ c, x ≠ SL)
+    (hdots : ∀ c ∈ cs, c ≠ [DOT] ∧ c ≠ [DOT, DOT]) (vid flag perm : Nat)
+    (hcorner : openExclDenied s v (toOpenMode flag) (walkPath s v root cs) = false) :
+    match posixOpen s v (toOpenMode flag) (walkPath s v root cs) with
+    | .fail e => openFile s v vid (SL :: joinWith SL cs) flag perm = (s, .error e)
+    | .create par name => name = cs.getLast hne ∧
+        openFile s v vid (SL :: joinWith SL cs) flag perm =
+          ((createFile s v par name perm).1,
+           .ok (handleOn (createFile s v par name perm).2 (SL :: joinWith SL cs) (toOpenMode flag) vid))
+    | .opened c tr => openFile s v vid (SL :: joinWith SL cs) flag perm =
+        (if tr then truncated s c else s, .ok (handleOn c (SL :: joinWith SL cs) (toOpenMode flag) vid))
+    | .outside => True :=
+  open_posix s root v hwf hn hv hroot cs hne hall hdots vid flag perm hcorner
+
+/-- Link = link(2): the reference's error, or one more entry for the same node in the resolved parent of the new name, link count + 1 -/
+theorem C01_link_posix (s : Store) (root : Ino) (v : View) (hwf : WF s root) (hn : NamesOK s) (hv : ViewOK s v)
+    (hroot : v.root = root) (cso csn : List Bytes) (hnen : csn ≠ [])
+    (hallo : ∀ c ∈ cso, c ≠ [] ∧ ∀ x ∈ c, x ≠ SL) (hdotso : ∀ c ∈ cso, c ≠ [DOT] ∧ c ≠ [DOT, DOT])
+    (halln : ∀ c ∈ csn, c ≠ [] ∧ ∀ x ∈ c, x ≠ SL) (hdotsn : ∀ c ∈ csn, c ≠ [DOT] ∧ c ≠ [DOT, DOT]) :
+    match posixLink s v (walkPath s v root cso) (walkPath s v root csn) with
+    | .fail e => link s v (SL :: joinWith SL cso) (SL :: joinWith SL csn) = (s, .err e)
+    | .link oc par name => name = csn.getLast hnen ∧
+        link s v (SL :: joinWith SL cso) (SL :: joinWith SL csn) = (linked s oc par name, .ok .unit)
+    | .outside => True :=
+  link_posix s root v hwf hn hv hroot cso csn hnen hallo hdotso halln hdotsn
+
+/-- Truncate = truncate(2) on the resolved node (size limit, write permission, EISDIR), only that node changes -/
+theorem C01_truncate_posix (s : Store) (root : Ino) (v : View) (hwf : WF s root) (hn : NamesOK s) (hv : ViewOK s v)
+    (hroot : v.root = root) (cs : List Bytes) (hall : ∀ c ∈ cs, c ≠ [] ∧ ∀ x ∈ c, x ≠ SL)
+    (hdots : ∀ c ∈ cs, c ≠ [DOT] ∧ c ≠ [DOT, DOT]) (size : Int) :
+    match posixTruncate s v size (walkPath s v root cs) with
+    | .fail e => truncate s v (SL :: joinWith SL cs) size = (s, .err e)
+    | .update c n => truncate s v (SL :: joinWith SL cs) size = (s.set c n, .ok .unit)
+    | .outside => True :=
+  truncate_posix s root v hwf hn hv hroot cs hall hdots size
+
+/-- Chmod = chmod(2): owner or administrator only; the permission bits are replaced, nothing else -/
+theorem C01_chmod_posix (s : Store) (root : Ino) (v : View) (hwf : WF s root) (hn : NamesOK s) (hv : ViewOK s v)
+    (hroot : v.root = root) (cs : List Bytes) (hall : ∀ c ∈ cs, c ≠ [] ∧ ∀ x ∈ c, x ≠ SL)
+    (hdots : ∀ c ∈ cs, c ≠ [DOT] ∧ c ≠ [DOT, DOT]) (mode : Nat) :
+    match posixChmod s v mode (walkPath s v root cs) with
+    | .fail e => chmod s v (SL :: joinWith SL cs) mode = (s, .err e)
+    | .update c n => chmod s v (SL :: joinWith SL cs) mode = (s.set c n, .ok .unit)
+    | .outside => True :=
+  chmod_posix s root v hwf hn hv hroot cs hall hdots mode
+
+/-- Chown / Lchown = chown(2) for the administrator; for anybody else MemFS answers EPERM before resolving the path (corner `chown_user`; recorded finding dac.chown-noop-nonadmin), so the theorem covers the cases where the reference says EPERM too -/
+theorem C01_chown_posix (s : Store) (root : Ino) (v : View) (hwf : WF s root) (hn : NamesOK s) (hv : ViewOK s v)
+    (hroot : v.root = root) (cs : List Bytes) (hall : ∀ c ∈ cs, c ≠ [] ∧ ∀ x ∈ c, x ≠ SL)
+    (hdots : ∀ c ∈ cs, c ≠ [DOT] ∧ c ≠ [DOT, DOT]) (uid gid : Int) (m : SlMode)
+    (hcorner : v.admin = true ∨ posixChown s v uid gid (walkPath s v root cs) = .fail .EPERM) :
+    match posixChown s v uid gid (walkPath s v root cs) with
+    | .fail e => chown s v (SL :: joinWith SL cs) uid gid m = (s, .err e)
+    | .update c n => chown s v (SL :: joinWith SL cs) uid gid m = (s.set c n, .ok .unit)
+    | .outside => True :=
+  chown_posix s root v hwf hn hv hroot cs hall hdots uid gid m hcorner
+
+/-- Rename = rename(2) for file and directory sources: error selection (EACCES on either parent, restricted deletion EPERM, EINVAL into the own subtree, EISDIR / ENOTDIR / EEXIST by kinds), the same-path and same-inode no-ops, and the effect (the entry moves, a replaced destination is released once) — outside the corner `renameCorner` where MemFS answers EEXIST for every existing destination that is not a regular file (`rename_corner_eexist`; os.Rename's own pre-check does the same for directories) -/
+theorem C01_rename_posix (s : Store) (root : Ino) (v : View) (hwf : WF s root) (hn : NamesOK s) (hv : ViewOK s v)
+    (hroot : v.root = root) (cso csn : List Bytes) (hneo : cso ≠ []) (hnen : csn ≠ [])
+    (hallo : ∀ c ∈ cso, c ≠ [] ∧ ∀ x ∈ c, x ≠ SL) (hdotso : ∀ c ∈ cso, c ≠ [DOT] ∧ c ≠ [DOT, DOT])
+    (halln : ∀ c ∈ csn, c ≠ [] ∧ ∀ x ∈ c, x ≠ SL) (hdotsn : ∀ c ∈ csn, c ≠ [DOT] ∧ c ≠ [DOT, DOT])
+    (hcorner : renameCorner s (walkPath s v root cso) (walkPath s v root csn)
+      (posixRename s v (decide (cso = csn)) (cso.isPrefixOf csn && cso != csn)
+        (walkPath s v root cso) (walkPath s v root csn)) = false) :
+    match posixRename s v (decide (cso = csn)) (cso.isPrefixOf csn && cso != csn)
+      (walkPath s v root cso) (walkPath s v root csn) with
+    | .fail e => rename s v (SL :: joinWith SL cso) (SL :: joinWith SL csn) = (s, .err e)
+    | .noop => rename s v (SL :: joinWith SL cso) (SL :: joinWith SL csn) = (s, .ok .unit)
+    | .move opar npar oc repl => rename s v (SL :: joinWith SL cso) (SL :: joinWith SL csn) =
+        (renamed s opar (cso.getLast hneo) npar (csn.getLast hnen) oc repl, .ok .unit)
+    | .outside => True :=
+  rename_posix s root v hwf hn hv hroot cso csn hneo hnen hallo hdotso halln hdotsn hcorner
 
 end Avfs.FS
